@@ -25,7 +25,7 @@ ANCHORS = ['gcp:Model.reset', 'lp:RoConstr.forall', 'ro:Model.minmax',
            'dro:Ambiguity.mix_support', 'lp:ExpPiecewiseConvex.__init__', 'lp:Scen.suppset',
            'dro:Model.rule_var']
 FLOORS = {'judged': {'quick': 250, 'thorough': 5000}, 'nontrivial': 60,
-          'counters': {'distractors_defined': 150, 'mid_solves': 100, 'supports_compared': 120}}
+          'counters': {'distractors_defined': 150, 'mid_solves': 100, 'supports_compared': 70}}
 RULE = ('ro histories (C01 generator): distractor sets of every primitive kind at random points, '
         'do_math / do_math(primal=False) / solve with a random interface after the objective or '
         'between rows, rows added after a solve, a decision variable and a decision rule declared '
@@ -66,6 +66,7 @@ def gen_case(rng, idx, tier):
                    'g': g, 'slack': float(np.round(rng.uniform(-0.5, 0.3), 2)),
                    'ldr': bool(rng.random() < 0.5),
                    'ldr_mask': (rng.random(nz) < 0.6).astype(int).tolist()}
+        ops['late_forall'] = bool(rng.random() < 0.4)
         return {'front': 'ro', 'spec': spec, 'ops': ops, 'distractors': dis, 'ext': ext,
                 'hseed': int(rng.integers(1 << 30))}
     spec = DR.gen(rng, tier)
@@ -240,6 +241,11 @@ def run_ro(spec, ctx):
                 distractor(B)
             if ops['mid'] and hr.random() < 0.4:
                 midsolve(B)
+        elif point == 'late_forall':
+            # rows that get their own set only now have been in the model, with the default
+            # set, through whatever happens here
+            midsolve(B)
+            events.append('late_forall')
         elif point == 'row':
             if ops.get('mid_rvar') and not state.get('mid_rvar') and hr.random() < 0.5:
                 # another (unused) random variable declared between two uses of the rules (the
@@ -255,7 +261,7 @@ def run_ro(spec, ctx):
     try:
         if ops['distract'] and hr.random() < 0.5:
             pass
-        BH = R.build(base, variant={'hook': hook})
+        BH = R.build(base, variant={'hook': hook, 'late_forall': bool(ops.get('late_forall'))})
         if ops.get('mid_rvar') and not state.get('mid_rvar'):
             BH.model.rvar(int(ops['mid_rvar']))
             state['mid_rvar'] = True
@@ -307,7 +313,7 @@ def run_ro(spec, ctx):
     sig = '|'.join('%s=%s' % (k, feats[k]) for k in sorted(feats))
     detail = []
     # captured supports
-    if ext is None and not ops['reuse'] and not ops.get('mid_rvar'):
+    if ext is None and not ops['reuse'] and not ops.get('mid_rvar') and not BH.late_forall:
         # (with a random variable declared in between, supports captured earlier legitimately
         # have fewer columns than in the fresh build; the optima are still compared)
         sF, sH = supports_of(BF), supports_of(BH)
@@ -410,7 +416,9 @@ def run_dro(spec, ctx):
         split = bool(hr.random() < 0.6)      # the same event declared in two exptset() calls
         if split:
             events.append('split_exptset')
-        BH = DR.build(base, variant={'after_sets': after_sets, 'split_moments': split})
+        late_fa = bool(hr.random() < 0.4)
+        BH = DR.build(base, variant={'after_sets': after_sets, 'split_moments': split,
+                                     'late_forall': late_fa})
         m = BH.model
         if ops['mid']:
             with warnings.catch_warnings():
@@ -431,6 +439,13 @@ def run_dro(spec, ctx):
                         ctx.count('mid_solve_solver_library_error')
                     else:
                         raise
+        if BH.pending_forall:
+            # constraints that were in the model (with the default set) through the formulations
+            # above get their own ambiguity set only now
+            for c_, fs_ in BH.pending_forall:
+                c_.forall(fs_)
+            events.append('late_forall')
+            ctx.count('late_forall_dro')
         if spec.get('late_moment'):
             lm = spec['late_moment']
             sel = DR.scen_selector(BH.fset, base, lm['event'], hr)
